@@ -10,6 +10,8 @@ pub struct Ev {
     pub name: &'static str,
     pub f: [u64; 6],
     pub raw: Vec<u8>,
+    /// Logical thread (baton scheduler) that emitted the event, -1 outside a scheduled run.
+    pub thread: i64,
 }
 
 static EVENTS: Mutex<Vec<Ev>> = Mutex::new(Vec::new());
@@ -24,13 +26,23 @@ pub fn set_observer(f: Option<fn(&Ev)>) {
 
 fn sink(seq: u64, ev: &a10::verif::Event<'_>) {
     alloc::untracked(|| {
-        let record = Ev { seq, name: ev.name, f: ev.f, raw: ev.raw.to_vec() };
+        let record = Ev { seq, name: ev.name, f: ev.f, raw: ev.raw.to_vec(), thread: crate::sched::me().map_or(-1, |t| t as i64) };
         let observer = *OBSERVER.lock().unwrap_or_else(|e| e.into_inner());
         if let Some(observer) = observer {
             observer(&record);
         }
         let mut events = EVENTS.lock().unwrap_or_else(|e| e.into_inner());
         events.push(record);
+    });
+}
+
+/// Insert a harness-side marker into the event stream (scheduled runs are
+/// serialised, so the position is the global order).
+pub fn push(name: &'static str, f: [u64; 6]) {
+    alloc::untracked(|| {
+        let mut events = EVENTS.lock().unwrap_or_else(|e| e.into_inner());
+        let seq = events.last().map_or(0, |e| e.seq);
+        events.push(Ev { seq, name, f, raw: Vec::new(), thread: crate::sched::me().map_or(-1, |t| t as i64) });
     });
 }
 
